@@ -134,6 +134,7 @@ impl<T: Qcow2IoOps> Qcow2Dev<T> {
         if let Some(to_kill) = evicted {
             log::warn!("add_l2_slice: cache eviction, slices {}", to_kill.len());
             // figure exact dependency on refcount cache & reftable entries
+            self.zero_pending_clusters().await?;
             self.flush_refcount().await?;
             self.flush_cache_entries(to_kill).await?;
         }
@@ -501,6 +502,37 @@ impl<T: Qcow2IoOps> Qcow2Dev<T> {
         self.call_fsync(off, len, 0).await
     }
 
+    /// Zero the new data clusters whose zeroing failed when they were first
+    /// written (see do_write_data_file()): their mappings are about to be
+    /// flushed, and what the host file holds there is not the guest's data.
+    async fn zero_pending_clusters(&self) -> Qcow2Result<()> {
+        let keys: Vec<u64> = self.zero_failed.lock().unwrap().iter().cloned().collect();
+
+        for key in keys {
+            let cluster = {
+                let map = self.new_cluster.read().await;
+                map.get(&key).cloned()
+            };
+            // no longer new: a later write has zeroed it
+            if let Some(cluster) = cluster {
+                let mut zeroed = cluster.write().await;
+                if !*zeroed {
+                    self.call_fallocate(
+                        key << self.info.cluster_bits(),
+                        self.info.cluster_size(),
+                        0,
+                    )
+                    .await?;
+                    *zeroed = true;
+                }
+                drop(zeroed);
+                self.clear_new_cluster(key).await;
+            }
+            self.zero_failed.lock().unwrap().remove(&key);
+        }
+        Ok(())
+    }
+
     /// flush meta data in ram to disk
     pub async fn flush_meta(&self) -> Qcow2Result<()> {
         let _flush_lock = self.flush_lock.lock().await;
@@ -512,6 +544,7 @@ impl<T: Qcow2IoOps> Qcow2Dev<T> {
         // dirtied meta after the pass had looked at it.
         self.mark_need_flush(false);
         let res = async {
+            self.zero_pending_clusters().await?;
             loop {
                 // refcount is usually small size & continuous, so simply
                 // flush all
